@@ -2222,6 +2222,46 @@ fn cmd_show(a: &Args) -> i32 {
     0
 }
 
+/// Do the generator programs (and their helper modules) mention threads or synchronisation?
+fn generator_uses_threads() -> Option<String> {
+    fn walk(dir: &Path, out: &mut Option<String>) {
+        let Ok(rd) = std::fs::read_dir(dir) else { return };
+        let mut entries: Vec<PathBuf> = rd.flatten().map(|e| e.path()).collect();
+        entries.sort();
+        for p in entries {
+            if out.is_some() {
+                return;
+            }
+            if p.is_dir() {
+                walk(&p, out);
+            } else if p.extension().map(|e| e == "rs").unwrap_or(false) {
+                let Ok(text) = std::fs::read_to_string(&p) else { continue };
+                for (n, line) in text.lines().enumerate() {
+                    let t = line.trim_start();
+                    if t.starts_with("//") {
+                        continue;
+                    }
+                    const TOKENS: [&str; 14] = [
+                        "thread::", "std::thread", "sync::", "Mutex", "RwLock", "Condvar", "Barrier", "mpsc", "Atomic", "thread_local!", "rayon", "park(", "unpark(",
+                        "LazyLock",
+                    ];
+                    if let Some(tok) = TOKENS.iter().find(|k| t.contains(**k)) {
+                        // `std::sync::Arc` / `OnceLock` alone are plain std (no scheduling point)
+                        let only_plain = *tok == "sync::" && !["Mutex", "RwLock", "Condvar", "Barrier", "mpsc", "atomic", "Once", "LazyLock"].iter().any(|k| t.contains(k)) && (t.contains("sync::Arc") || t.contains("sync::OnceLock") || t.contains("sync::Weak"));
+                        if !only_plain {
+                            *out = Some(format!("{}: line {}: {}", p.strip_prefix("/repo").unwrap_or(&p).display(), n + 1, t.chars().take(80).collect::<String>()));
+                            return;
+                        }
+                    }
+                }
+            }
+        }
+    }
+    let mut out = None;
+    walk(&Path::new(REPO_CRATE).join("src/bin"), &mut out);
+    out
+}
+
 /// Do the generator programs (and the helper modules next to them) keep state in statics?
 fn generator_process_state() -> Option<String> {
     fn walk(dir: &Path, out: &mut Option<String>) {
@@ -2252,6 +2292,16 @@ fn main() {
     // shuttle installs a process-wide panic hook at its first execution; ours goes on top of it
     sim::prime_shuttle();
     sim::install_panic_hook();
+    // A generator that uses threads or synchronisation runs under the thread scheduler from its
+    // first run on. (Finding that out by letting the first plain run hit an engine primitive and
+    // panic is the fallback only: a program whose destructors take a lock — an end-of-run report
+    // in `Drop` — panics a second time during that unwinding, which aborts the process.)
+    if let Some(why) = generator_uses_threads() {
+        sim::USE_SHUTTLE.store(true, std::sync::atomic::Ordering::SeqCst);
+        if std::env::var_os("GENSIM_QUIET_NOTES").is_none() {
+            println!("NOTE: the generator programs use threads or synchronisation ({}): every run executes under the thread scheduler", why);
+        }
+    }
     // A generator that keeps state in statics gets a fresh process per simulated run (isolate.rs)
     match std::env::var("GENSIM_ISOLATE").ok().as_deref() {
         Some("0") => {}
